@@ -1,0 +1,326 @@
+// Copyright 2020-2025 Buf Technologies, Inc.
+//
+// Licensed under the Apache License, Version 2.0 (the "License");
+// you may not use this file except in compliance with the License.
+// You may obtain a copy of the License at
+//
+//      http://www.apache.org/licenses/LICENSE-2.0
+//
+// Unless required by applicable law or agreed to in writing, software
+// distributed under the License is distributed on an "AS IS" BASIS,
+// WITHOUT WARRANTIES OR CONDITIONS OF ANY KIND, either express or implied.
+// See the License for the specific language governing permissions and
+// limitations under the License.
+
+//go:build verif
+
+package bufimageutil
+
+// Contracts for the gocv verifier (see /verif/DESIGN.md). Comment-only.
+//
+// C12: type filtering. The per-element keep/drop decisions.
+//
+// hasType: the truth table over the five inclusion modes.
+//@ func (t *transitiveClosure) hasType(descriptor, options) (r)
+//@   property C12
+//@   reveal f_mode
+//@   ensures excluded-never: f_mode(t.elements, descriptor) == inclusionModeExcluded ==> !r
+//@   ensures included-always: f_mode(t.elements, descriptor) == inclusionModeExplicit || f_mode(t.elements, descriptor) == inclusionModeImplicit || f_mode(t.elements, descriptor) == inclusionModeEnclosing ==> r
+//@   ensures unknown-iff-no-includes: f_mode(t.elements, descriptor) == inclusionModeUnknown ==> (r <==> options.includeTypes == nil)
+//@   ensures out-of-range-never: f_mode(t.elements, descriptor) < inclusionModeExcluded || f_mode(t.elements, descriptor) > inclusionModeImplicit ==> !r
+//@   canary ensures r
+//@   canary ensures !r
+//@   ensures table: r <==> f_kept(f_mode(t.elements, descriptor), options.includeTypes == nil)
+//@   reveal f_kept
+//
+// remapEnum / remapMethod / remapOneof: an element survives iff the closure has it, and a survivor is the
+// very same descriptor (pointer-equal, not marked changed).
+//@ func (b *sourcePathsBuilder) remapEnum(sourcePathsRemap, sourcePath, enum) (r, changed, err)
+//@   property C12
+//@   ensures no-error: err == nil
+//@   ensures kept-iff-has-type: r != nil <==> (enum != nil && f_kept(f_mode(b.closure.elements, enum), b.options.includeTypes == nil))
+//@   ensures unchanged: r != nil ==> r == enum && !changed
+//@   ensures dropped-is-change: r == nil && enum != nil ==> changed
+//@   canary ensures r == nil
+//@   canary ensures r != nil
+//
+// remapMethod: from the property: a kept method is in the closure, is unchanged, and does not refer to a
+// request/response type that is not in the filtered image ("contains no excluded element nor any reference to one").
+// FINDING (kept on purpose, fails on this tree): kept-io-present / kept-io-not-excluded. remapMethod looks only at the
+// method itself. Model: method mode Unknown, input type mode Excluded, includeTypes == nil. Replayed: a.proto (import)
+// {Req, Resp, Other, service Svc{Do(Req) returns Resp}}, b.proto {M{pkg.Other o}}, WithExcludeTypes("pkg.Req"):
+// a.proto keeps Svc.Do(.pkg.Req) but drops Req; protodesc.NewFiles fails.
+//@ func (b *sourcePathsBuilder) remapMethod(sourcePathsRemap, sourcePath, method) (r, changed, err)
+//@   property C12
+//@   reveal f_elem, f_mode, f_kept
+//@   ensures no-error: err == nil
+//@   ensures kept-method-included: r != nil ==> f_kept(f_mode(b.closure.elements, method), b.options.includeTypes == nil)
+//@   ensures included-method-kept: method != nil && f_kept(f_mode(b.closure.elements, method), b.options.includeTypes == nil) ==> r != nil
+//@   ensures unchanged: r != nil ==> r == method && !changed
+//@   ensures dropped-is-change: r == nil && method != nil ==> changed
+//@   ensures kept-io-present: r != nil ==> f_kept(f_mode(b.closure.elements, f_elem(b.imageIndex.ByName, strings.TrimPrefix(method.GetInputType(), "."))), b.options.includeTypes == nil) && f_kept(f_mode(b.closure.elements, f_elem(b.imageIndex.ByName, strings.TrimPrefix(method.GetOutputType(), "."))), b.options.includeTypes == nil)
+//@   ensures kept-io-not-excluded: r != nil ==> f_mode(b.closure.elements, f_elem(b.imageIndex.ByName, strings.TrimPrefix(method.GetInputType(), "."))) != inclusionModeExcluded && f_mode(b.closure.elements, f_elem(b.imageIndex.ByName, strings.TrimPrefix(method.GetOutputType(), "."))) != inclusionModeExcluded
+//@   canary ensures r == nil
+//@   canary ensures r != nil
+//
+// remapOneof: a oneof is dropped exactly when the closure marked it excluded (all its fields were dropped).
+//@ func (b *sourcePathsBuilder) remapOneof(sourcePathsRemap, sourcePath, oneof) (r, changed, err)
+//@   property C12
+//@   reveal f_mode
+//@   ensures no-error: err == nil
+//@   ensures kept-iff-not-excluded: oneof != nil ==> (r != nil <==> f_mode(b.closure.elements, oneof) != inclusionModeExcluded)
+//@   ensures unchanged: r != nil ==> r == oneof && !changed
+//@   ensures dropped-is-change: r == nil && oneof != nil ==> changed
+//@   canary ensures r == nil
+//@   canary ensures r != nil
+//
+// remapField: extensions are filtered as types of their own; every field (extension or not) whose type is a
+// message, group or enum survives only if that type survives. A surviving field is the same descriptor.
+//@ func (b *sourcePathsBuilder) remapField(sourcePathsRemap, sourcePath, field) (r, changed, err)
+//@   property C12
+//@   reveal f_elem
+//@   ensures unchanged: r != nil ==> r == field && !changed && err == nil
+//@   ensures dropped-is-change: r == nil && err == nil && field != nil ==> changed
+//@   ensures error-drops: err != nil ==> r == nil
+//@   ensures kept-extension-included: r != nil && field.Extendee != nil ==> f_kept(f_mode(b.closure.elements, field), b.options.includeTypes == nil)
+//@   ensures kept-type-present: r != nil && (field.GetType() == descriptorpb.FieldDescriptorProto_TYPE_ENUM || field.GetType() == descriptorpb.FieldDescriptorProto_TYPE_MESSAGE || field.GetType() == descriptorpb.FieldDescriptorProto_TYPE_GROUP) ==> f_kept(f_mode(b.closure.elements, f_elem(b.imageIndex.ByName, strings.TrimPrefix(field.GetTypeName(), "."))), b.options.includeTypes == nil)
+//@   ensures scalar-field-kept: field != nil && field.Extendee == nil && field.GetType() >= descriptorpb.FieldDescriptorProto_TYPE_DOUBLE && field.GetType() <= descriptorpb.FieldDescriptorProto_TYPE_SINT64 && field.GetType() != descriptorpb.FieldDescriptorProto_TYPE_ENUM && field.GetType() != descriptorpb.FieldDescriptorProto_TYPE_MESSAGE && field.GetType() != descriptorpb.FieldDescriptorProto_TYPE_GROUP ==> r == field
+//@   ensures present-type-kept: field != nil && field.Extendee == nil && (field.GetType() == descriptorpb.FieldDescriptorProto_TYPE_ENUM || field.GetType() == descriptorpb.FieldDescriptorProto_TYPE_MESSAGE || field.GetType() == descriptorpb.FieldDescriptorProto_TYPE_GROUP) && f_kept(f_mode(b.closure.elements, f_elem(b.imageIndex.ByName, strings.TrimPrefix(field.GetTypeName(), "."))), b.options.includeTypes == nil) ==> r == field
+//@   ensures unknown-type-fails: field.GetType() < descriptorpb.FieldDescriptorProto_TYPE_DOUBLE || field.GetType() > descriptorpb.FieldDescriptorProto_TYPE_SINT64 ==> r == nil && (err != nil || (field.Extendee != nil && !f_kept(f_mode(b.closure.elements, field), b.options.includeTypes == nil)))
+//@   canary ensures r == nil
+//@   canary ensures r != nil
+//@   canary ensures err == nil
+//
+// FilterImage: identity cases. Without options the very same image is returned; the filtering machinery is
+// entered only with a non-empty include or exclude set (obligation FilterImage#pre@filterImage), so options that
+// name no type also return the same image.
+// (filterImage itself ranges over an iterator, which is outside the fragment: its contract is a pure obligation
+// on callers, it assumes nothing about the result.)
+//@ trusted func filterImage(image, options) (r, err)
+//@   property C12
+//@   requires nonempty-filter: options != nil && (len(options.excludeTypes) != 0 || len(options.includeTypes) != 0)
+//@   modifies heap
+//
+//@ func newImageFilterOptions() (r)
+//@   property C12
+//@   ensures defaults: r != nil && r.includeCustomOptions && r.includeKnownExtensions && !r.allowImportedTypes && !r.mutateInPlace
+//@   ensures no-types: r.includeTypes == nil && r.excludeTypes == nil
+//
+//@ func FilterImage(image, options) (r, err)
+//@   property C12
+//@   modifies heap
+//@   ensures no-options-identity: len(options) == 0 ==> r == image && err == nil
+//@   canary ensures r == image
+//
+//@ func errorUnsupportedFilterType(descriptor, fullName) (r)
+//@   property C12
+//@   ensures is-error: r != nil
+//
+// excludeElement: marks the element and everything declared inside it (nested messages, nested enums, extensions
+// declared in it; for files all top-level declarations; for services all methods) as excluded; never changes the
+// mode of an element that already has one; fails if the element was already included.
+//@ func (t *transitiveClosure) excludeElement(descriptor, imageIndex, opts) (err)
+//@   property C12
+//@   reveal f_mode
+//@   modifies heap transitiveClosure.elements
+//@   ensures marked: err == nil ==> f_mode(t.elements, descriptor) == inclusionModeExcluded
+//@   ensures included-rejected: descriptor in old(t.elements) && old(t.elements)[descriptor] != inclusionModeExcluded ==> err != nil
+//@   ensures existing-untouched: forall d namedDescriptor :: d in old(t.elements) ==> d in t.elements && t.elements[d] == old(t.elements)[d]
+//@   ensures only-excludes: forall d namedDescriptor :: d in t.elements && !(d in old(t.elements)) ==> t.elements[d] == inclusionModeExcluded
+//@   ensures nested-messages: err == nil && !(descriptor in old(t.elements)) && typeOf(descriptor) == typeId(*descriptorpb.DescriptorProto) ==> (forall i int :: 0 <= i && i < len(cast(*descriptorpb.DescriptorProto, descriptor).GetNestedType()) ==> f_mode(t.elements, cast(*descriptorpb.DescriptorProto, descriptor).GetNestedType()[i]) == inclusionModeExcluded)
+//@   ensures plain-field-rejected: !(descriptor in old(t.elements)) && typeOf(descriptor) == typeId(*descriptorpb.FieldDescriptorProto) && cast(*descriptorpb.FieldDescriptorProto, descriptor).Extendee == nil ==> err != nil
+//@   canary ensures err != nil
+//@   ensures nested-enums: err == nil && !(descriptor in old(t.elements)) && typeOf(descriptor) == typeId(*descriptorpb.DescriptorProto) ==> (forall i int :: 0 <= i && i < len(cast(*descriptorpb.DescriptorProto, descriptor).GetEnumType()) ==> f_mode(t.elements, cast(*descriptorpb.DescriptorProto, descriptor).GetEnumType()[i]) == inclusionModeExcluded)
+//@   ensures nested-extensions: err == nil && !(descriptor in old(t.elements)) && typeOf(descriptor) == typeId(*descriptorpb.DescriptorProto) ==> (forall i int :: 0 <= i && i < len(cast(*descriptorpb.DescriptorProto, descriptor).GetExtension()) ==> f_mode(t.elements, cast(*descriptorpb.DescriptorProto, descriptor).GetExtension()[i]) == inclusionModeExcluded)
+//@   ensures file-messages: err == nil && !(descriptor in old(t.elements)) && typeOf(descriptor) == typeId(*descriptorpb.FileDescriptorProto) ==> (forall i int :: 0 <= i && i < len(cast(*descriptorpb.FileDescriptorProto, descriptor).GetMessageType()) ==> f_mode(t.elements, cast(*descriptorpb.FileDescriptorProto, descriptor).GetMessageType()[i]) == inclusionModeExcluded)
+//@   ensures file-enums: err == nil && !(descriptor in old(t.elements)) && typeOf(descriptor) == typeId(*descriptorpb.FileDescriptorProto) ==> (forall i int :: 0 <= i && i < len(cast(*descriptorpb.FileDescriptorProto, descriptor).GetEnumType()) ==> f_mode(t.elements, cast(*descriptorpb.FileDescriptorProto, descriptor).GetEnumType()[i]) == inclusionModeExcluded)
+//@   ensures file-services: err == nil && !(descriptor in old(t.elements)) && typeOf(descriptor) == typeId(*descriptorpb.FileDescriptorProto) ==> (forall i int :: 0 <= i && i < len(cast(*descriptorpb.FileDescriptorProto, descriptor).GetService()) ==> f_mode(t.elements, cast(*descriptorpb.FileDescriptorProto, descriptor).GetService()[i]) == inclusionModeExcluded)
+//@   ensures file-extensions: err == nil && !(descriptor in old(t.elements)) && typeOf(descriptor) == typeId(*descriptorpb.FileDescriptorProto) ==> (forall i int :: 0 <= i && i < len(cast(*descriptorpb.FileDescriptorProto, descriptor).GetExtension()) ==> f_mode(t.elements, cast(*descriptorpb.FileDescriptorProto, descriptor).GetExtension()[i]) == inclusionModeExcluded)
+//@   ensures service-methods: err == nil && !(descriptor in old(t.elements)) && typeOf(descriptor) == typeId(*descriptorpb.ServiceDescriptorProto) ==> (forall i int :: 0 <= i && i < len(cast(*descriptorpb.ServiceDescriptorProto, descriptor).GetMethod()) ==> f_mode(t.elements, cast(*descriptorpb.ServiceDescriptorProto, descriptor).GetMethod()[i]) == inclusionModeExcluded)
+//@   loop 0 invariant forall d namedDescriptor :: d in old(t.elements) ==> d in t.elements && t.elements[d] == old(t.elements)[d]
+//@   loop 0 invariant forall d namedDescriptor :: d in t.elements && !(d in old(t.elements)) ==> t.elements[d] == inclusionModeExcluded
+//@   loop 0 invariant f_mode(t.elements, old(descriptor)) == inclusionModeExcluded && !(old(descriptor) in old(t.elements))
+//@   loop 0 invariant (forall i int :: 0 <= i && i < $i ==> f_mode(t.elements, cast(*descriptorpb.FileDescriptorProto, old(descriptor)).GetMessageType()[i]) == inclusionModeExcluded)
+//@   loop 1 invariant forall d namedDescriptor :: d in old(t.elements) ==> d in t.elements && t.elements[d] == old(t.elements)[d]
+//@   loop 1 invariant forall d namedDescriptor :: d in t.elements && !(d in old(t.elements)) ==> t.elements[d] == inclusionModeExcluded
+//@   loop 1 invariant f_mode(t.elements, old(descriptor)) == inclusionModeExcluded && !(old(descriptor) in old(t.elements))
+//@   loop 1 invariant (forall i int :: 0 <= i && i < $i ==> f_mode(t.elements, cast(*descriptorpb.FileDescriptorProto, old(descriptor)).GetEnumType()[i]) == inclusionModeExcluded)
+//@   loop 1 invariant (forall i int :: 0 <= i && i < len(cast(*descriptorpb.FileDescriptorProto, old(descriptor)).GetMessageType()) ==> f_mode(t.elements, cast(*descriptorpb.FileDescriptorProto, old(descriptor)).GetMessageType()[i]) == inclusionModeExcluded)
+//@   loop 2 invariant forall d namedDescriptor :: d in old(t.elements) ==> d in t.elements && t.elements[d] == old(t.elements)[d]
+//@   loop 2 invariant forall d namedDescriptor :: d in t.elements && !(d in old(t.elements)) ==> t.elements[d] == inclusionModeExcluded
+//@   loop 2 invariant f_mode(t.elements, old(descriptor)) == inclusionModeExcluded && !(old(descriptor) in old(t.elements))
+//@   loop 2 invariant (forall i int :: 0 <= i && i < $i ==> f_mode(t.elements, cast(*descriptorpb.FileDescriptorProto, old(descriptor)).GetService()[i]) == inclusionModeExcluded)
+//@   loop 2 invariant (forall i int :: 0 <= i && i < len(cast(*descriptorpb.FileDescriptorProto, old(descriptor)).GetMessageType()) ==> f_mode(t.elements, cast(*descriptorpb.FileDescriptorProto, old(descriptor)).GetMessageType()[i]) == inclusionModeExcluded)
+//@   loop 2 invariant (forall i int :: 0 <= i && i < len(cast(*descriptorpb.FileDescriptorProto, old(descriptor)).GetEnumType()) ==> f_mode(t.elements, cast(*descriptorpb.FileDescriptorProto, old(descriptor)).GetEnumType()[i]) == inclusionModeExcluded)
+//@   loop 3 invariant forall d namedDescriptor :: d in old(t.elements) ==> d in t.elements && t.elements[d] == old(t.elements)[d]
+//@   loop 3 invariant forall d namedDescriptor :: d in t.elements && !(d in old(t.elements)) ==> t.elements[d] == inclusionModeExcluded
+//@   loop 3 invariant f_mode(t.elements, old(descriptor)) == inclusionModeExcluded && !(old(descriptor) in old(t.elements))
+//@   loop 3 invariant (forall i int :: 0 <= i && i < $i ==> f_mode(t.elements, cast(*descriptorpb.FileDescriptorProto, old(descriptor)).GetExtension()[i]) == inclusionModeExcluded)
+//@   loop 3 invariant (forall i int :: 0 <= i && i < len(cast(*descriptorpb.FileDescriptorProto, old(descriptor)).GetMessageType()) ==> f_mode(t.elements, cast(*descriptorpb.FileDescriptorProto, old(descriptor)).GetMessageType()[i]) == inclusionModeExcluded)
+//@   loop 3 invariant (forall i int :: 0 <= i && i < len(cast(*descriptorpb.FileDescriptorProto, old(descriptor)).GetEnumType()) ==> f_mode(t.elements, cast(*descriptorpb.FileDescriptorProto, old(descriptor)).GetEnumType()[i]) == inclusionModeExcluded)
+//@   loop 3 invariant (forall i int :: 0 <= i && i < len(cast(*descriptorpb.FileDescriptorProto, old(descriptor)).GetService()) ==> f_mode(t.elements, cast(*descriptorpb.FileDescriptorProto, old(descriptor)).GetService()[i]) == inclusionModeExcluded)
+//@   loop 4 invariant forall d namedDescriptor :: d in old(t.elements) ==> d in t.elements && t.elements[d] == old(t.elements)[d]
+//@   loop 4 invariant forall d namedDescriptor :: d in t.elements && !(d in old(t.elements)) ==> t.elements[d] == inclusionModeExcluded
+//@   loop 4 invariant f_mode(t.elements, old(descriptor)) == inclusionModeExcluded && !(old(descriptor) in old(t.elements))
+//@   loop 4 invariant (forall i int :: 0 <= i && i < $i ==> f_mode(t.elements, cast(*descriptorpb.DescriptorProto, old(descriptor)).GetNestedType()[i]) == inclusionModeExcluded)
+//@   loop 5 invariant forall d namedDescriptor :: d in old(t.elements) ==> d in t.elements && t.elements[d] == old(t.elements)[d]
+//@   loop 5 invariant forall d namedDescriptor :: d in t.elements && !(d in old(t.elements)) ==> t.elements[d] == inclusionModeExcluded
+//@   loop 5 invariant f_mode(t.elements, old(descriptor)) == inclusionModeExcluded && !(old(descriptor) in old(t.elements))
+//@   loop 5 invariant (forall i int :: 0 <= i && i < $i ==> f_mode(t.elements, cast(*descriptorpb.DescriptorProto, old(descriptor)).GetEnumType()[i]) == inclusionModeExcluded)
+//@   loop 5 invariant (forall i int :: 0 <= i && i < len(cast(*descriptorpb.DescriptorProto, old(descriptor)).GetNestedType()) ==> f_mode(t.elements, cast(*descriptorpb.DescriptorProto, old(descriptor)).GetNestedType()[i]) == inclusionModeExcluded)
+//@   loop 6 invariant forall d namedDescriptor :: d in old(t.elements) ==> d in t.elements && t.elements[d] == old(t.elements)[d]
+//@   loop 6 invariant forall d namedDescriptor :: d in t.elements && !(d in old(t.elements)) ==> t.elements[d] == inclusionModeExcluded
+//@   loop 6 invariant f_mode(t.elements, old(descriptor)) == inclusionModeExcluded && !(old(descriptor) in old(t.elements))
+//@   loop 6 invariant (forall i int :: 0 <= i && i < $i ==> f_mode(t.elements, cast(*descriptorpb.DescriptorProto, old(descriptor)).GetExtension()[i]) == inclusionModeExcluded)
+//@   loop 6 invariant (forall i int :: 0 <= i && i < len(cast(*descriptorpb.DescriptorProto, old(descriptor)).GetNestedType()) ==> f_mode(t.elements, cast(*descriptorpb.DescriptorProto, old(descriptor)).GetNestedType()[i]) == inclusionModeExcluded)
+//@   loop 6 invariant (forall i int :: 0 <= i && i < len(cast(*descriptorpb.DescriptorProto, old(descriptor)).GetEnumType()) ==> f_mode(t.elements, cast(*descriptorpb.DescriptorProto, old(descriptor)).GetEnumType()[i]) == inclusionModeExcluded)
+//@   loop 7 invariant forall d namedDescriptor :: d in old(t.elements) ==> d in t.elements && t.elements[d] == old(t.elements)[d]
+//@   loop 7 invariant forall d namedDescriptor :: d in t.elements && !(d in old(t.elements)) ==> t.elements[d] == inclusionModeExcluded
+//@   loop 7 invariant f_mode(t.elements, old(descriptor)) == inclusionModeExcluded && !(old(descriptor) in old(t.elements))
+//@   loop 7 invariant (forall i int :: 0 <= i && i < $i ==> f_mode(t.elements, cast(*descriptorpb.ServiceDescriptorProto, old(descriptor)).GetMethod()[i]) == inclusionModeExcluded)
+//
+// excludeType: a name of the image excludes that element (and, through excludeElement, what it contains); a package
+// name excludes every file of the package; a name that is neither fails.
+//@ func (t *transitiveClosure) excludeType(typeName, imageIndex, options) (err)
+//@   property C12
+//@   reveal f_mode, f_elem
+//@   modifies heap transitiveClosure.elements
+//@   ensures named-element-excluded: err == nil && typeName in imageIndex.ByName ==> f_mode(t.elements, f_elem(imageIndex.ByName, typeName)) == inclusionModeExcluded
+//@   ensures unknown-name-fails: !(typeName in imageIndex.ByName) && !(typeName in imageIndex.Packages) ==> err != nil
+//@   ensures package-files-excluded: err == nil && !(typeName in imageIndex.ByName) && typeName in imageIndex.Packages ==> (forall i int :: 0 <= i && i < len(imageIndex.Packages[typeName].files) ==> f_mode(t.elements, imageIndex.Packages[typeName].files[i].FileDescriptorProto()) == inclusionModeExcluded)
+//@   ensures included-rejected: typeName in imageIndex.ByName && f_elem(imageIndex.ByName, typeName) in old(t.elements) && old(t.elements)[f_elem(imageIndex.ByName, typeName)] != inclusionModeExcluded ==> err != nil
+//@   ensures existing-untouched: forall d namedDescriptor :: d in old(t.elements) ==> d in t.elements && t.elements[d] == old(t.elements)[d]
+//@   ensures only-excludes: forall d namedDescriptor :: d in t.elements && !(d in old(t.elements)) ==> t.elements[d] == inclusionModeExcluded
+//@   loop 0 invariant forall d namedDescriptor :: d in old(t.elements) ==> d in t.elements && t.elements[d] == old(t.elements)[d]
+//@   loop 0 invariant forall d namedDescriptor :: d in t.elements && !(d in old(t.elements)) ==> t.elements[d] == inclusionModeExcluded
+//@   loop 0 invariant forall i int :: 0 <= i && i < $i ==> f_mode(t.elements, pkg.files[i].FileDescriptorProto()) == inclusionModeExcluded
+//@   canary ensures err != nil
+//@   canary ensures err == nil
+//
+// hasOption: built-in option fields always stay; custom options (extensions) stay only when custom options are
+// retained and the extension is not excluded.
+//@ func (t *transitiveClosure) hasOption(fieldDescriptor, imageIndex, options) (r)
+//@   property C12
+//@   reveal f_mode, f_elem
+//@   ensures builtin-kept: !fieldDescriptor.IsExtension() ==> r
+//@   ensures custom-dropped-when-not-retained: fieldDescriptor.IsExtension() && !options.includeCustomOptions ==> !r
+//@   ensures excluded-option-dropped: fieldDescriptor.IsExtension() && f_mode(t.elements, f_elem(imageIndex.ByName, fieldDescriptor.FullName())) == inclusionModeExcluded ==> !r
+//@   ensures custom-kept: fieldDescriptor.IsExtension() && options.includeCustomOptions && f_mode(t.elements, f_elem(imageIndex.ByName, fieldDescriptor.FullName())) >= inclusionModeUnknown && f_mode(t.elements, f_elem(imageIndex.ByName, fieldDescriptor.FullName())) <= inclusionModeImplicit ==> r
+//@   canary ensures r
+//@   canary ensures !r
+//
+// Containers (service, message, file): an element that is not in the closure is dropped; a survivor was in the
+// closure; and a container reported as not changed is the very same descriptor. (What happens to the children is
+// decided by remapSlice, which writes through aliased slices and is outside the fragment: no claim.)
+//@ func (b *sourcePathsBuilder) remapService(sourcePathsRemap, sourcePath, service) (r, changed, err)
+//@   property C12
+//@   modifies heap
+//@   ensures not-in-closure-dropped: !f_kept(f_mode(old(b.closure.elements), service), old(b.options.includeTypes) == nil) ==> r == nil && changed && err == nil
+//@   ensures survivor-in-closure: r != nil ==> f_kept(f_mode(old(b.closure.elements), service), old(b.options.includeTypes) == nil)
+//@   ensures unchanged-is-same: err == nil && !changed ==> r == service
+//@   ensures error-drops: err != nil ==> r == nil
+//
+//@ func (b *sourcePathsBuilder) remapDescriptor(sourcePathsRemap, sourcePath, descriptor) (r, changed, err)
+//@   property C12
+//@   modifies heap
+//@   ensures not-in-closure-dropped: !f_kept(f_mode(old(b.closure.elements), descriptor), old(b.options.includeTypes) == nil) ==> r == nil && changed && err == nil
+//@   ensures survivor-in-closure: r != nil ==> f_kept(f_mode(old(b.closure.elements), descriptor), old(b.options.includeTypes) == nil)
+//@   ensures unchanged-is-same: err == nil && !changed ==> r == descriptor
+//@   ensures error-drops: err != nil ==> r == nil
+//
+//@ func (b *sourcePathsBuilder) remapFileDescriptor(sourcePathsRemap, fileDescriptor) (r, changed, err)
+//@   property C12
+//@   modifies heap
+//@   ensures not-in-closure-dropped: !f_kept(f_mode(old(b.closure.elements), fileDescriptor), old(b.options.includeTypes) == nil) ==> r == nil && changed && err == nil
+//@   ensures survivor-in-closure: r != nil ==> f_kept(f_mode(old(b.closure.elements), fileDescriptor), old(b.options.includeTypes) == nil)
+//@   ensures unchanged-is-same: err == nil && !changed ==> r == fileDescriptor
+//@   ensures error-drops: err != nil ==> r == nil
+//
+// A file that is not in the closure is filtered out (nil, no error); a file that comes back was in the closure.
+//@ func filterImageFile(imageFile, imageIndex, closure, options) (r, err)
+//@   property C12
+//@   modifies heap
+//@   ensures not-in-closure-dropped: !f_kept(f_mode(old(closure.elements), imageFile.FileDescriptorProto()), old(options.includeTypes) == nil) ==> r == nil && err == nil
+//@   ensures survivor-in-closure: r != nil && err == nil ==> f_kept(f_mode(old(closure.elements), imageFile.FileDescriptorProto()), old(options.includeTypes) == nil)
+//
+// In-place filtering rewrites the given descriptor itself; otherwise a copy is made (shallowClone: reflection, no claim).
+//@ func maybeClone(value, options) (r)
+//@   property C12
+//@   modifies heap
+//@   ensures in-place-same: old(options.mutateInPlace) ==> r == value
+//
+// includeType: the documented failures. A name that is neither an element nor a package; an element of an imported
+// file unless imported types are allowed (not stated here: see report, IsImport resolves differently in code and spec); an element that was excluded; an extension whose extendee was excluded.
+//@ func (t *transitiveClosure) includeType(typeName, imageIndex, options) (err)
+//@   property C12
+//@   reveal f_mode, f_elem
+//@   modifies heap
+//@   ensures unknown-name-fails: !(typeName in old(imageIndex.ByName)) && !(typeName in old(imageIndex.Packages)) ==> err != nil
+//@   ensures excluded-rejected: typeName in old(imageIndex.ByName) && f_mode(old(t.elements), f_elem(old(imageIndex.ByName), typeName)) == inclusionModeExcluded ==> err != nil
+//@   ensures extension-of-excluded-rejected: typeName in old(imageIndex.ByName) && f_elem(old(imageIndex.ByName), typeName) != nil && typeOf(f_elem(old(imageIndex.ByName), typeName)) == typeId(*descriptorpb.FieldDescriptorProto) && old(cast(*descriptorpb.FieldDescriptorProto, f_elem(imageIndex.ByName, typeName)).Extendee) != nil && f_mode(old(t.elements), f_elem(old(imageIndex.ByName), strings.TrimPrefix(cast(*descriptorpb.FieldDescriptorProto, f_elem(old(imageIndex.ByName), typeName)).GetExtendee(), "."))) == inclusionModeExcluded ==> err != nil
+//@   canary ensures err != nil
+//@   canary ensures err == nil
+//
+// addFieldType (closure side of remapField): a field whose message/group/enum type is excluded is not included
+// (and that is not an error); a type name that is not in the image is an error; scalar fields are always included.
+//@ func (t *transitiveClosure) addFieldType(field, referrerFile, imageIndex, opts) (r, err)
+//@   property C12
+//@   reveal f_mode, f_elem
+//@   modifies heap
+//@   ensures excluded-type-drops-field: (field.GetType() == descriptorpb.FieldDescriptorProto_TYPE_ENUM || field.GetType() == descriptorpb.FieldDescriptorProto_TYPE_MESSAGE || field.GetType() == descriptorpb.FieldDescriptorProto_TYPE_GROUP) && strings.TrimPrefix(field.GetTypeName(), ".") in old(imageIndex.ByName) && f_mode(old(t.elements), f_elem(old(imageIndex.ByName), strings.TrimPrefix(field.GetTypeName(), "."))) == inclusionModeExcluded ==> !r && err == nil
+//@   ensures missing-type-fails: (field.GetType() == descriptorpb.FieldDescriptorProto_TYPE_ENUM || field.GetType() == descriptorpb.FieldDescriptorProto_TYPE_MESSAGE || field.GetType() == descriptorpb.FieldDescriptorProto_TYPE_GROUP) && !(strings.TrimPrefix(field.GetTypeName(), ".") in old(imageIndex.ByName)) ==> !r && err != nil
+//@   ensures scalar-included: field.GetType() >= descriptorpb.FieldDescriptorProto_TYPE_DOUBLE && field.GetType() <= descriptorpb.FieldDescriptorProto_TYPE_SINT64 && field.GetType() != descriptorpb.FieldDescriptorProto_TYPE_ENUM && field.GetType() != descriptorpb.FieldDescriptorProto_TYPE_MESSAGE && field.GetType() != descriptorpb.FieldDescriptorProto_TYPE_GROUP ==> r && err == nil
+//@   ensures unknown-type-fails: field.GetType() < descriptorpb.FieldDescriptorProto_TYPE_DOUBLE || field.GetType() > descriptorpb.FieldDescriptorProto_TYPE_SINT64 ==> !r && err != nil
+//@   ensures error-not-included: err != nil ==> !r
+//@   ensures options-untouched: !old(opts.includeCustomOptions) ==> !opts.includeCustomOptions
+//@   ensures no-message-newly-excluded: !old(opts.includeCustomOptions) ==> (forall d namedDescriptor :: d != nil && typeOf(d) == typeId(*descriptorpb.DescriptorProto) && f_mode(old(t.elements), d) != inclusionModeExcluded ==> f_mode(t.elements, d) != inclusionModeExcluded)
+//@   canary ensures r
+//@   canary ensures !r
+//
+// The inclusion walk must not exclude anything the filter did not name: "a filter built only from type names that
+// exist in the image does not fail because of unrelated content" and "contains every included element together with
+// everything those elements need". Stated for filters without custom-option retention (the option walk goes through
+// protobuf reflection callbacks and is outside the fragment): including an element never turns a message that was
+// not excluded into an excluded one.
+// FINDING (kept on purpose, fails on this tree): addElement#inv-step[5.1] (the loop over service methods). When only
+// the OUTPUT type of a method is excluded, bufimageutil.go:529 marks the method's INPUT message as excluded
+// (t.elements[inputInfo.element] = inclusionModeExcluded) instead of the method. Replayed: service Svc{Do(Req) returns
+// Resp; Do2(Req) returns Other}, WithIncludeTypes("pkg.Svc"), WithExcludeTypes("pkg.Resp") drops Do2 and Req as well;
+// exclude-only WithExcludeTypes("pkg.Resp") fails with "cannot include method pkg.Svc.Do as the input type pkg.Req is
+// excluded". With `t.elements[method] = inclusionModeExcluded` every obligation of addElement is discharged.
+//@ func (t *transitiveClosure) exploreCustomOptions(descriptor, referrerFile, imageIndex, opts) (err)
+//@   property C12
+//@   modifies heap
+//@   ensures off-is-noop: !old(opts.includeCustomOptions) ==> err == nil && t.elements == old(t.elements) && opts.includeCustomOptions == old(opts.includeCustomOptions)
+//
+//@ func (t *transitiveClosure) addImport(fromPath, toPath)
+//@   property C12
+//@   modifies heap transitiveClosure.imports
+//
+//@ func (t *transitiveClosure) addElement(descriptor, referrerFile, impliedByCustomOption, imageIndex, opts) (err)
+//@   property C12
+//@   reveal f_mode
+//@   modifies heap
+//@   ensures options-untouched: !old(opts.includeCustomOptions) ==> !opts.includeCustomOptions
+//@   ensures no-message-newly-excluded: !old(opts.includeCustomOptions) ==> (forall d namedDescriptor :: d != nil && typeOf(d) == typeId(*descriptorpb.DescriptorProto) && f_mode(old(t.elements), d) != inclusionModeExcluded ==> f_mode(t.elements, d) != inclusionModeExcluded)
+//@   loop 0 invariant !old(opts.includeCustomOptions) ==> !opts.includeCustomOptions
+//@   loop 0 invariant !old(opts.includeCustomOptions) ==> (forall d namedDescriptor :: d != nil && typeOf(d) == typeId(*descriptorpb.DescriptorProto) && f_mode(old(t.elements), d) != inclusionModeExcluded ==> f_mode(t.elements, d) != inclusionModeExcluded)
+//@   loop 1 invariant !old(opts.includeCustomOptions) ==> !opts.includeCustomOptions
+//@   loop 1 invariant !old(opts.includeCustomOptions) ==> (forall d namedDescriptor :: d != nil && typeOf(d) == typeId(*descriptorpb.DescriptorProto) && f_mode(old(t.elements), d) != inclusionModeExcluded ==> f_mode(t.elements, d) != inclusionModeExcluded)
+//@   loop 2 invariant !old(opts.includeCustomOptions) ==> !opts.includeCustomOptions
+//@   loop 2 invariant !old(opts.includeCustomOptions) ==> (forall d namedDescriptor :: d != nil && typeOf(d) == typeId(*descriptorpb.DescriptorProto) && f_mode(old(t.elements), d) != inclusionModeExcluded ==> f_mode(t.elements, d) != inclusionModeExcluded)
+//@   loop 3 invariant !old(opts.includeCustomOptions) ==> !opts.includeCustomOptions
+//@   loop 3 invariant !old(opts.includeCustomOptions) ==> (forall d namedDescriptor :: d != nil && typeOf(d) == typeId(*descriptorpb.DescriptorProto) && f_mode(old(t.elements), d) != inclusionModeExcluded ==> f_mode(t.elements, d) != inclusionModeExcluded)
+//@   loop 4 invariant !old(opts.includeCustomOptions) ==> !opts.includeCustomOptions
+//@   loop 4 invariant !old(opts.includeCustomOptions) ==> (forall d namedDescriptor :: d != nil && typeOf(d) == typeId(*descriptorpb.DescriptorProto) && f_mode(old(t.elements), d) != inclusionModeExcluded ==> f_mode(t.elements, d) != inclusionModeExcluded)
+//@   loop 5 invariant !old(opts.includeCustomOptions) ==> !opts.includeCustomOptions
+//@   loop 5 invariant !old(opts.includeCustomOptions) ==> (forall d namedDescriptor :: d != nil && typeOf(d) == typeId(*descriptorpb.DescriptorProto) && f_mode(old(t.elements), d) != inclusionModeExcluded ==> f_mode(t.elements, d) != inclusionModeExcluded)
+//
+//@ func (t *transitiveClosure) addEnclosing(descriptor, enclosingFile, imageIndex, opts) (err)
+//@   property C12
+//@   reveal f_mode
+//@   modifies heap
+//@   ensures options-untouched: !old(opts.includeCustomOptions) ==> !opts.includeCustomOptions
+//@   ensures no-message-newly-excluded: !old(opts.includeCustomOptions) ==> (forall d namedDescriptor :: d != nil && typeOf(d) == typeId(*descriptorpb.DescriptorProto) && f_mode(old(t.elements), d) != inclusionModeExcluded ==> f_mode(t.elements, d) != inclusionModeExcluded)
+//@   loop 0 invariant !old(opts.includeCustomOptions) ==> !opts.includeCustomOptions
+//@   loop 0 invariant !old(opts.includeCustomOptions) ==> (forall d namedDescriptor :: d != nil && typeOf(d) == typeId(*descriptorpb.DescriptorProto) && f_mode(old(t.elements), d) != inclusionModeExcluded ==> f_mode(t.elements, d) != inclusionModeExcluded)
